@@ -164,6 +164,13 @@ pub fn relational_cfgs() -> Vec<Cfg> {
     for val in [" ", "   ", "\t", "\0", "\0\0\0\0\0", "\u{1}\u{3}abc", "\u{8}\u{2}\u{0}x"] {
         v.push(Cfg::Sdes { chunks: vec![Chunk { ssrc: 1, items: vec![it(1, &[], val), it(1, &[], val), it(8, val.as_bytes(), val)] }, Chunk { ssrc: 0, items: vec![it(2, &[], val)] }], padding: 0 });
     }
+    // several PRIV items with the same / with different prefixes in one chunk, repeated item types
+    for (p1, p2) in [(&b"ex"[..], &b"ex"[..]), (b"ex", b"ey"), (b"", b""), (b"a", b"ab")] {
+        v.push(Cfg::Sdes {
+            chunks: vec![Chunk { ssrc: 1, items: vec![it(8, p1, "a"), it(2, &[], "name"), it(8, p2, "b"), it(2, &[], "again")] }, Chunk { ssrc: 2, items: vec![it(8, p1, "c")] }],
+            padding: 0,
+        });
+    }
     // a non-PRIV item that carries a (documented to be ignored) prefix
     v.push(Cfg::Sdes { chunks: vec![Chunk { ssrc: 1, items: vec![it(1, b"pfx", "cname"), it(2, b"\0", "")] }], padding: 4 });
     // PRIV items at the edges of the (prefix, value) triangle
